@@ -652,3 +652,33 @@ Proof.
     destruct (selected sel j) eqn:Ej; [|reflexivity].
     apply subset_independent_atom; try assumption. congruence.
 Qed.
+
+(* ------------------------------------------------------------------ two spheres: the analytic cap criterion *)
+Definition dot (a b : vec) : Z :=
+  let '(ax, ay, az) := a in let '(bx, by_, bz) := b in ax * bx + ay * by_ + az * bz.
+
+(* For a point ON the unit sphere (|s| = M) of atom a, "strictly inside atom b" is the half-space condition
+       2 r_a (s . u) > M (r_a^2 + |u|^2 - r_b^2),   u = x_b - x_a,
+   i.e. cos(angle to the axis) > (r_a^2 + d^2 - r_b^2) / (2 r_a d): exactly the cap that the analytic two-sphere
+   formula removes.  How many golden-spiral points fall in that cap (the quadrature error) is not proved. *)
+Lemma cap_criterion : forall M (a b : atom) (s : vec),
+  0 < M -> norm2 s = M * M ->
+  inside M (centred M a s) b =
+  (M * (snd a * snd a + d2 (fst a) (fst b) - snd b * snd b) <? 2 * snd a * dot s (vsub (fst b) (fst a))).
+Proof.
+  intros M [[[px py] pz] ra] [[[qx qy] qz] rb] [[sx sy] sz] HM Hs.
+  unfold inside, centred, d2, norm2, vsub, vscale, dot, sq in *. cbn [fst snd] in *.
+  set (L := M * (ra * ra + ((px - qx) * (px - qx) + (py - qy) * (py - qy) + (pz - qz) * (pz - qz)) - rb * rb)).
+  set (R := 2 * ra * (sx * (qx - px) + sy * (qy - py) + sz * (qz - pz))).
+  set (X := (px * M + ra * sx - qx * M) * (px * M + ra * sx - qx * M) +
+            (py * M + ra * sy - qy * M) * (py * M + ra * sy - qy * M) +
+            (pz * M + ra * sz - qz * M) * (pz * M + ra * sz - qz * M)).
+  set (B := M * rb * (M * rb)).
+  assert (E0 : X - B - M * (L - R) = ra * ra * ((sx * sx + sy * sy + sz * sz) - M * M))
+    by (unfold X, B, L, R; ring).
+  rewrite Hs, Z.sub_diag, Z.mul_0_r in E0.
+  clearbody X B L R.
+  destruct (Z.ltb_spec L R) as [H|H]; [apply Z.ltb_lt|apply Z.ltb_ge].
+  - assert (M * (L - R) < 0) by (apply Z.mul_pos_neg; lia). lia.
+  - assert (0 <= M * (L - R)) by (apply Z.mul_nonneg_nonneg; lia). lia.
+Qed.
